@@ -18,5 +18,7 @@ FirstDiff(e) == LET ts == Tokens(e.chars)
 Accepted ==
   LET d == TLCGet("stats").diameter IN
     IF d - 1 = Len(Rec) THEN TRUE
-    ELSE PrintT(<<"REJECT", ToJson([line |-> d, diff |-> FirstDiff(Rec[d])])>>) /\ FALSE
+    (* a record that is not a token stream (the recorder logs a panic of tokenize as data) is rejected without a diff *)
+    ELSE PrintT(<<"REJECT", ToJson([line |-> d, diff |-> IF Rec[d].ev = "lexm" THEN FirstDiff(Rec[d])
+                                                          ELSE [at |-> 0, model |-> <<>>, len_model |-> 0, len_real |-> 0]])>>) /\ FALSE
 =============================================================================
